@@ -437,7 +437,7 @@ def run(ctx):
         ("break / repair / touch every bundled file", ["breakfix"]),
         (".luaurc aliases changing between passes, path and luau require mode", ["luaurc"]),
         ("directory removal next to siblings with the same name prefix", ["siblings"]),
-        ("random", ["random", "--seed", str(ctx.seed), "--n", "200" if quick else "1500",
+        ("random", ["random", "--seed", str(ctx.seed), "--n", "120" if quick else "1500",
                     "--len", "12" if quick else "40"]),
     ]
     records = []
